@@ -2370,3 +2370,16 @@ func init() {
 	addDoc("C04", "R04m (= C08 R08b) namespace table discipline.")
 	addDoc("C03", "K18 (= C06 R06b) csv decoder configuration.")
 }
+
+func init() {
+	wrapRun("C10", func(c *core.Ctx) {
+		// R10p (= C04 R04i): whether a node becomes a record depends on the selection state only; a reader field learnt
+		// from earlier records (seed C10-12: the nesting depth of the first candidate) makes the records of a stream depend
+		// on what preceded them
+		if c.CountRule("R10p") == 0 {
+			importRules(c, "C04", map[string]string{"R04i": "R10p"})
+			c.Floor("R10p", 6, "marking / delivering / rejecting decisions of the two stream readers")
+		}
+	})
+	addDoc("C10", "R10p (= C04 R04i) candidate marking, delivery and rejection depend on the selection state only.")
+}
